@@ -95,13 +95,20 @@ class C03(Check):
     )
 
     def pinned(self, tier):
-        return lexparse.pinned_cases(tier, 3, 25)
+        # every fixture of every dialect (<= 1500 chars): unmutated fixtures are the best probe for a grammar that
+        # emits an Indent without its Dedent in one construct of one dialect
+        from vlib import gens
+
+        for d in gens.dialects():
+            for r in gens.corpus(d, 1500):
+                yield {"dialect": d, "templater": "raw", "sql": r["sql"], "origin": r["name"]}
+        yield from lexparse.pinned_cases(tier, 0, 0)
 
     def strategy(self, tier):
         return lexparse.domain(tier)
 
     def examples(self, tier):
-        return 170 if tier == "quick" else 6000
+        return 90 if tier == "quick" else 6000
 
     def run_case(self, case):
         out = Outcome(labels=lexparse.base_labels(case))
